@@ -1,0 +1,32 @@
+//go:build verif
+
+// Contract for the size table of the hash registry (comment-only; installed by /verif/gcv gen-contracts): Size
+// reports, for every hash of the registry, the length of the digests that hash produces. The lengths are not taken
+// from the code: a digest of MiMC or Poseidon2 over a curve is one element of its scalar field (8 bytes per 64-bit
+// limb of the pinned modulus), a digest of the small-field Poseidon2 instances is half a state (published parameters).
+
+package hash
+
+//@ func Hash.Size
+//@ requires m < maxHash
+//@ ensures[mimc-bn254] m == MIMC_BN254 ==> result == 32
+//@ ensures[poseidon2-bn254] m == POSEIDON2_BN254 ==> result == 32
+//@ ensures[mimc-bls12-381] m == MIMC_BLS12_381 ==> result == 32
+//@ ensures[poseidon2-bls12-381] m == POSEIDON2_BLS12_381 ==> result == 32
+//@ ensures[mimc-bls12-377] m == MIMC_BLS12_377 ==> result == 32
+//@ ensures[poseidon2-bls12-377] m == POSEIDON2_BLS12_377 ==> result == 32
+//@ ensures[mimc-bw6-761] m == MIMC_BW6_761 ==> result == 48
+//@ ensures[poseidon2-bw6-761] m == POSEIDON2_BW6_761 ==> result == 48
+//@ ensures[mimc-bls24-315] m == MIMC_BLS24_315 ==> result == 32
+//@ ensures[poseidon2-bls24-315] m == POSEIDON2_BLS24_315 ==> result == 32
+//@ ensures[mimc-bls24-317] m == MIMC_BLS24_317 ==> result == 32
+//@ ensures[poseidon2-bls24-317] m == POSEIDON2_BLS24_317 ==> result == 32
+//@ ensures[mimc-bw6-633] m == MIMC_BW6_633 ==> result == 40
+//@ ensures[poseidon2-bw6-633] m == POSEIDON2_BW6_633 ==> result == 40
+//@ ensures[mimc-grumpkin] m == MIMC_GRUMPKIN ==> result == 32
+//@ ensures[poseidon2-grumpkin] m == POSEIDON2_GRUMPKIN ==> result == 32
+//@ ensures[poseidon2-koalabear] m == POSEIDON2_KOALABEAR ==> result == 32
+//@ ensures[poseidon2-babybear] m == POSEIDON2_BABYBEAR ==> result == 32
+//@ ensures[poseidon2-goldilocks] m == POSEIDON2_GOLDILOCKS ==> result == 32
+//@ modifies nothing
+//@ end
